@@ -559,6 +559,7 @@ struct scan_data {
 struct player_data {
 	int ord;
 	int pos;
+	int reposition;		/* set_position asked for the order being played */
 	int row;
 	int frame;
 	int speed;
